@@ -128,5 +128,48 @@ pub fn c03_struct_forms<S: Src>(_s: &mut S) {
     check("TransactionOutput (inline datum, script ref)", out_ds.to_bytes(),
           map(vec![(0, bytes(&addr.to_bytes())), (1, val.to_bytes()), (2, arr(Some(1), vec![wrapped(&datum.to_bytes())])), (3, sref.to_bytes())]));
     check("ScriptRef (native)", sref.to_bytes(), wrapped(&arr(Some(0), vec![NativeScript::new_script_pubkey(&sp).to_bytes()])));
+    // protocol parameter update: every settable field alone sits under its CDDL key (distinct values, so an exchange shows)
+    {
+        let one = |f: &dyn Fn(&mut ProtocolParamUpdate)| { let mut u = ProtocolParamUpdate::new(); f(&mut u); u.to_bytes() };
+        let entry = |k: u64, v: Vec<u8>| { let mut b = vec![0xa1]; b.extend(uint(k)); b.extend(v); b };
+        let ui = |n: u64| UnitInterval::new(&bn(n), &bn(1000));
+        let uib = |n: u64| ui(n).to_bytes();
+        let exu = ExUnits::new(&bn(7), &bn(300));
+        let prices = ExUnitPrices::new(&ui(19), &ui(20));
+        let pvt = PoolVotingThresholds::new(&ui(1), &ui(2), &ui(3), &ui(4), &ui(5));
+        let dvt = DRepVotingThresholds::new(&ui(1), &ui(2), &ui(3), &ui(4), &ui(5), &ui(6), &ui(7), &ui(8), &ui(9), &ui(10));
+        let cm = Costmdls::new();
+        check("ppu minfee_a", one(&|u| u.set_minfee_a(&bn(100))), entry(0, uint(100)));
+        check("ppu minfee_b", one(&|u| u.set_minfee_b(&bn(101))), entry(1, uint(101)));
+        check("ppu max_block_body_size", one(&|u| u.set_max_block_body_size(102)), entry(2, uint(102)));
+        check("ppu max_tx_size", one(&|u| u.set_max_tx_size(103)), entry(3, uint(103)));
+        check("ppu max_block_header_size", one(&|u| u.set_max_block_header_size(104)), entry(4, uint(104)));
+        check("ppu key_deposit", one(&|u| u.set_key_deposit(&bn(105))), entry(5, uint(105)));
+        check("ppu pool_deposit", one(&|u| u.set_pool_deposit(&bn(106))), entry(6, uint(106)));
+        check("ppu max_epoch", one(&|u| u.set_max_epoch(107)), entry(7, uint(107)));
+        check("ppu n_opt", one(&|u| u.set_n_opt(108)), entry(8, uint(108)));
+        check("ppu pool_pledge_influence", one(&|u| u.set_pool_pledge_influence(&ui(109))), entry(9, uib(109)));
+        check("ppu expansion_rate", one(&|u| u.set_expansion_rate(&ui(110))), entry(10, uib(110)));
+        check("ppu treasury_growth_rate", one(&|u| u.set_treasury_growth_rate(&ui(111))), entry(11, uib(111)));
+        check("ppu protocol_version", one(&|u| u.set_protocol_version(&ProtocolVersion::new(10, 2))), entry(14, ProtocolVersion::new(10, 2).to_bytes()));
+        check("ppu min_pool_cost", one(&|u| u.set_min_pool_cost(&bn(116))), entry(16, uint(116)));
+        check("ppu ada_per_utxo_byte", one(&|u| u.set_ada_per_utxo_byte(&bn(117))), entry(17, uint(117)));
+        check("ppu cost_models", one(&|u| u.set_cost_models(&cm)), entry(18, cm.to_bytes()));
+        check("ppu execution_costs", one(&|u| u.set_execution_costs(&prices)), entry(19, prices.to_bytes()));
+        check("ppu max_tx_ex_units", one(&|u| u.set_max_tx_ex_units(&exu)), entry(20, exu.to_bytes()));
+        check("ppu max_block_ex_units", one(&|u| u.set_max_block_ex_units(&exu)), entry(21, exu.to_bytes()));
+        check("ppu max_value_size", one(&|u| u.set_max_value_size(122)), entry(22, uint(122)));
+        check("ppu collateral_percentage", one(&|u| u.set_collateral_percentage(123)), entry(23, uint(123)));
+        check("ppu max_collateral_inputs", one(&|u| u.set_max_collateral_inputs(124)), entry(24, uint(124)));
+        check("ppu pool_voting_thresholds", one(&|u| u.set_pool_voting_thresholds(&pvt)), entry(25, pvt.to_bytes()));
+        check("ppu drep_voting_thresholds", one(&|u| u.set_drep_voting_thresholds(&dvt)), entry(26, dvt.to_bytes()));
+        check("ppu min_committee_size", one(&|u| u.set_min_committee_size(127)), entry(27, uint(127)));
+        check("ppu committee_term_limit", one(&|u| u.set_committee_term_limit(128)), entry(28, uint(128)));
+        check("ppu governance_action_validity_period", one(&|u| u.set_governance_action_validity_period(129)), entry(29, uint(129)));
+        check("ppu governance_action_deposit", one(&|u| u.set_governance_action_deposit(&bn(130))), entry(30, uint(130)));
+        check("ppu drep_deposit", one(&|u| u.set_drep_deposit(&bn(131))), entry(31, uint(131)));
+        check("ppu drep_inactivity_period", one(&|u| u.set_drep_inactivity_period(132)), entry(32, uint(132)));
+        check("ppu ref_script_coins_per_byte", one(&|u| u.set_ref_script_coins_per_byte(&ui(133))), entry(33, uib(133)));
+    }
     assert!(failures.is_empty(), "{} struct-level forms deviate from the CDDL; first: {}", failures.len(), failures[0]);
 }
